@@ -13,23 +13,42 @@ budget = os.environ.get("SENS_BUDGET", "30")
 out = {"when": time.strftime("%Y-%m-%d %H:%M"), "repo_head": subprocess.run(["git", "-C", "/repo", "rev-parse", "--short", "HEAD"], capture_output=True, text=True).stdout.strip(),
        "verif_head": subprocess.run(["git", "-C", VERIF, "rev-parse", "--short", "HEAD"], capture_output=True, text=True).stdout.strip(),
        "budget_s": budget, "mutants": {}, "benign": {}, "seeded": {}}
+# PARALLEL items at a time, each check with SENS_WORKERS worker processes
+from concurrent.futures import ThreadPoolExecutor
+PARALLEL = int(os.environ.get("SELFTEST_PARALLEL", "3"))
+os.environ.setdefault("SENS_WORKERS", "6")
+
+
+def one_patch(args):
+    kind, prop, p = args
+    r = sensitivity.run(prop, p, budget=budget)
+    r.pop("tail", None)
+    print(kind, prop, json.dumps(r)[:200]); sys.stdout.flush()
+    return kind, prop, r
+
+
+def one_seeded(name):
+    subprocess.run([os.path.join(VERIF, "tools", "seeded.py"), "run", name, "quick"], env=dict(os.environ, SENS_BUDGET=str(max(40, int(budget)))))
+    meta = json.load(open(os.path.join(VERIF, "seeded", name, "meta.json")))
+    return name, {"property": meta["property"], "status_at_head": meta.get("status_at_head"), "result": meta["checks"].get(meta["property"], {}).get("quick")}
+
+
+jobs = []
 for prop in PROPS:
     for kind, sub in (("mutants", "mutants"), ("benign", "benign")):
-        res = []
+        out[kind][prop] = []
         for p in sorted(glob.glob(os.path.join(VERIF, "selftest", sub, prop, "*.patch"))):
-            r = sensitivity.run(prop, p, budget=budget)
-            r.pop("tail", None)
-            res.append(r)
-            print(kind, prop, json.dumps(r)[:200]); sys.stdout.flush()
-        out[kind][prop] = res
+            jobs.append((kind, prop, p))
+names = []
 for d in sorted(glob.glob(os.path.join(VERIF, "seeded", "*"))):
-    name = os.path.basename(d)
     meta = json.load(open(os.path.join(d, "meta.json")))
-    if meta["property"] not in PROPS:
-        continue
-    subprocess.run([os.path.join(VERIF, "tools", "seeded.py"), "run", name, "quick"], env=dict(os.environ, SENS_BUDGET=str(max(40, int(budget)))))
-    meta = json.load(open(os.path.join(d, "meta.json")))
-    out["seeded"][name] = {"property": meta["property"], "status_at_head": meta.get("status_at_head"), "result": meta["checks"].get(meta["property"], {}).get("quick")}
+    if meta["property"] in PROPS:
+        names.append(os.path.basename(d))
+with ThreadPoolExecutor(PARALLEL) as ex:
+    for kind, prop, r in ex.map(one_patch, jobs):
+        out[kind][prop].append(r)
+    for name, rec in ex.map(one_seeded, names):
+        out["seeded"][name] = rec
 json.dump(out, open(os.path.join(VERIF, "selftest", "results.json"), "w"), indent=1)
 L = [f"# Self-test results ({out['when']}, /repo {out['repo_head']}, /verif {out['verif_head']}, quick tier, budget {budget}s per run)", ""]
 for prop in PROPS:
